@@ -132,12 +132,19 @@ type ChanV struct {
 	sendq []*sendWait
 	recvq []*Goroutine
 	et    types.Type
+	// race detection: clocks carried by buffered values, receive history, close
+	bufVC   []vclock
+	recvVCs []vclock
+	nSent   int
+	closeVC vclock
 }
 
 type sendWait struct {
 	g    *Goroutine
 	val  Value
 	done bool
+	vc   vclock // clock carried by the value
+	ack  vclock // receiver's clock at the receive (rendezvous edge)
 }
 
 type FuncV struct {
